@@ -201,12 +201,36 @@ def generate(ctx):
     # (window, unit, step, unit): given the way a user writes them (pint quantities in hours / minutes); the conversion
     # to seconds inside nondimensionalize rounds differently from a value already given in seconds - both are checked
     pairs = [[6, 'hour', 20, 'minute'], [6, 'hour', 30, 'minute'], [3, 'hour', 10, 'minute'], [1, 'hour', 7.5, 'minute']]
-    yield 'dfi', {'eq': 'shallow_water', 'pairs': pairs, 'scales': TIME_UNIT_SCALES, 'seed': seed()}
-    yield 'dfi', {'eq': 'dry', 'pairs': pairs[:1] + pairs[3:] if quick else pairs, 'scales': TIME_UNIT_SCALES, 'seed': seed()}
+    # step counts / weights are compared for every pair; the (costly) filtered run only for the pairs listed in 'run'
+    yield 'dfi', {'eq': 'shallow_water', 'pairs': pairs, 'run': [0, 1] if quick else [0, 1, 2, 3], 'scales': TIME_UNIT_SCALES, 'seed': seed()}
+    yield 'dfi', {'eq': 'dry', 'pairs': pairs, 'run': [3] if quick else [0, 1, 2, 3], 'scales': TIME_UNIT_SCALES, 'seed': seed()}
     # winds <-> vorticity/divergence through the library's jitted helpers, several scales in one process, both orders
     for _ in range(1 if quick else 3):
         yield 'winds', {'scales': _scales(ctx, 2), 'seed': seed()}
     yield 'threshold_scan', {}
+    # options, layouts, sizes and structured data (checklist of the robustness review); one scale pair each
+    FAST = {'impl': 'fast'}; PAD4 = {'impl': 'fast', 'base_shape_multiple': 4}; PAD8 = {'impl': 'fast', 'base_shape_multiple': 8}
+    TALLL = {'M': 4, 'L': 7, 'I': 12, 'J': 8}; MINLON = {'M': 5, 'L': 6, 'I': 8, 'J': 8}
+    variants = [dict(kind='dry', K=3, grid=PAD4, eqkw={'vertical_matmul_method': 'sparse'}, integrators=['crank_nicolson_rk2'], filters=['exponential', 'diffusion']),
+                dict(kind='moist', K=2, eqkw={'vertical_advection': 'upwind'}, integrators=['backward_forward_euler'], structure='zero_tracers'),
+                dict(kind='dry', K=1, eqkw={'include_vertical_advection': False}, integrators=['imex_rk_sil3'], structure='rest')]
+    if not quick:
+        variants += [dict(kind='dry', K=3, grid=FAST, integrators=['imex_rk_sil3'], filters=['diffusion']),
+                     dict(kind='cloud', K=3, grid=PAD8, eqkw={'vertical_matmul_method': 'dense'}, integrators=['crank_nicolson_rk3']),
+                     dict(kind='dry', K=3, grid=TALLL, integrators=['crank_nicolson_rk2'], structure='top_mode'),
+                     dict(kind='time', K=2, grid=MINLON, integrators=['crank_nicolson_rk4'], structure='equal_ends'),
+                     dict(kind='moist', K=3, eqkw={'vertical_matmul_method': 'sparse', 'include_vertical_advection': False}, integrators=['imex_rk_sil3'], structure='uniform_tref'),
+                     dict(kind='dry', K=3, eqkw={'vertical_advection': 'upwind', 'vertical_matmul_method': 'sparse'}, integrators=['backward_forward_euler'], structure='integers'),
+                     dict(kind='dry', K=3, grid={'M': 4, 'L': 5, 'I': 64, 'J': 6}, integrators=['crank_nicolson_rk2']),
+                     dict(kind='dry', K=3, grid={'M': 4, 'L': 5, 'I': 12, 'J': 48}, integrators=['crank_nicolson_rk2'])]
+    for v in variants:
+        yield 'pe', dict({'filters': [], 'nsteps': 1, 'inverse_method': 'all', 'scales': _scales(ctx, 1), 'seed': seed()}, **v)
+    yield 'sw_extreme', {'seed': seed(), 'scales': _scales(ctx, 1), 'grid': PAD4, 'alpha': 0.7}
+    if not quick:
+        yield 'sw_extreme', {'seed': seed(), 'scales': _scales(ctx, 1), 'grid': FAST, 'alpha': 0.3}
+        yield 'pe_extreme', {'kind': 'dry', 'tref_range': 0.8, 'seed': seed(), 'K': 3, 'scales': _axis_scales(rng, None), 'grid': PAD4}
+    for ratio, order, cutoff in ([(1e-3, 1, 0.0), (1e3, 3, 0.5)] if quick else [(1e-3, 1, 0.0), (1e3, 3, 0.5), (1.0, 18, 0.0), (30.0, 2, 0.9), (1e-2, 4, 0.3)]):
+        yield 'filters', {'scales': _scales(ctx, 1), 'seed': seed(), 'tau_over_dt': ratio, 'order': order, 'cutoff': cutoff}
     for integ in (['imex_rk_sil3'] if quick else ['imex_rk_sil3', 'crank_nicolson_rk3', 'backward_forward_euler']):
         yield 'held_suarez', {'integrator': integ, 'nsteps': 2, 'scales': _scales(ctx, ns), 'seed': seed()}
     for integs in ([['crank_nicolson_rk2', 'leapfrog']] if quick else [[i, 'leapfrog'] for i in dyn.INTEGRATORS]):
@@ -249,14 +273,43 @@ def _cmp(ctx, clause, results, labels, floor=None):
             ctx.oracle(clause, ok, det)
 
 
-def _D(specs, x, unit):
+_SV = {}          # id(specs) -> (specs, base-unit magnitudes of its scale), registered by the *_setup functions
+
+
+def _register(specs, sv):
+    _SV[id(specs)] = (specs, _scale_vec(sv))
+    return specs
+
+
+def _factor_py(specs, unit):
+    """(conversion of `unit` to SI base units, scale factor of its dimension): computed here from the scale vector and
+    pint's unit table, NOT with Scale.dimensionalize / nondimensionalize of the implementation under test."""
     u = M()['units']
-    return np.asarray(specs.dimensionalize(np.asarray(x, dtype=np.float64), u(unit).units if isinstance(unit, str) else unit).magnitude, dtype=np.float64)
+    q = u(unit) if isinstance(unit, str) else (1.0 * unit)
+    ent = _SV.get(id(specs))
+    if ent is None or ent[0] is not specs:
+        sc = specs.scale
+        vec = [float(sc[k].to_base_units().magnitude) for k in ('[length]', '[time]', '[mass]', '[temperature]')]
+    else:
+        vec = ent[1]
+    conv = float(q.to_base_units().magnitude)
+    d = _pint_dim(q)
+    fac = 1.0
+    for v, e in zip(vec, d):
+        fac *= float(v) ** e
+    return conv, fac
+
+
+def _D(specs, x, unit):
+    """non-dimensional value -> magnitude in `unit` (independent of the implementation's Scale methods)."""
+    conv, fac = _factor_py(specs, unit)
+    return np.asarray(x, dtype=np.float64) * (fac / conv)
 
 
 def _ND(specs, x, unit):
-    u = M()['units']
-    return specs.nondimensionalize(np.asarray(x, dtype=np.float64) * (u(unit) if isinstance(unit, str) else unit))
+    """magnitude in `unit` -> non-dimensional value (independent of the implementation's Scale methods)."""
+    conv, fac = _factor_py(specs, unit)
+    return np.asarray(x, dtype=np.float64) * (conv / fac)
 
 
 def _c00(g):
@@ -338,8 +391,9 @@ def _to_jnp(tree):
 # ---------------------------------------------------------------------------
 # primitive equations (dry / with time / moist / cloud)
 # ---------------------------------------------------------------------------
-def _pe_problem(rng, kind, K, tref_range=None):
-    g0 = dyn.grid()
+def _pe_problem(rng, kind, K, tref_range=None, gridkw=None, structure=None):
+    gridkw = dict(gridkw or {})
+    g0 = dyn.grid(**gridkw)
     p = dict(b=util.uneven_boundaries(rng, K), consts=_si_constants(rng),
              vort=dyn.modal_field(rng, g0, (K,), 2, True, 2e-5), div=dyn.modal_field(rng, g0, (K,), 2, True, 4e-6),
              temp=dyn.modal_field(rng, g0, (K,), 2, False, 3.0),
@@ -351,13 +405,32 @@ def _pe_problem(rng, kind, K, tref_range=None):
              dt=float(rng.integers(300, 1500)))
     for t in p['tracers']:
         p['tracers'][t][:, 0, 0] += 0.02
+    p['gridkw'] = gridkw
+    # structured (non-random) data
+    if structure == 'rest':                       # atmosphere exactly at rest, flat surface pressure
+        p['vort'] *= 0; p['div'] *= 0; p['ps'] = np.full_like(p['ps'], 1.0e5)
+    elif structure == 'zero_tracers':
+        for t in p['tracers']: p['tracers'][t] *= 0
+    elif structure == 'uniform_tref':             # plateau: all reference temperatures equal
+        p['tref'] = np.full(K, float(p['tref'][0]))
+    elif structure == 'equal_ends':               # equal end values, different interior
+        p['tref'][-1] = p['tref'][0]
+    elif structure == 'top_mode':                 # one coefficient at the highest retained total wavenumber
+        mm, ll = g0.modal_mesh; lt = g0.total_wavenumbers - 2
+        sel = np.asarray(g0.mask) & (ll == lt) & (mm == np.min(np.where(np.asarray(g0.mask) & (ll == lt), mm, 10 ** 6)))
+        for k_, amp in (('vort', 2e-5), ('div', 4e-6), ('temp', 3.0)):
+            p[k_] = np.where(sel, amp, 0.0) * np.ones_like(p[k_])
+    elif structure == 'integers':                 # integer-valued SI data
+        p['temp'] = np.round(p['temp']); p['tref'] = np.round(p['tref']); p['oro'] = np.round(p['oro']); p['dt'] = float(round(p['dt'], -2))
     return p
 
 
 def _pe_setup(sv, p, kind, **eqkw):
     m = M(); pe = m['pe']; jnp = m['jnp']
-    specs = pe.PrimitiveEquationsSpecs.from_si(scale=_scale(sv), **p['consts'])
-    g = dyn.grid(radius=specs.radius); c = dyn.coords(g, p['b'])
+    specs = _register(pe.PrimitiveEquationsSpecs.from_si(scale=_scale(sv), **p['consts']), sv)
+    g = dyn.grid(radius=specs.radius, **p.get('gridkw', {})); c = dyn.coords(g, p['b'])
+    if eqkw.get('vertical_advection') == 'upwind':
+        eqkw = dict(eqkw, vertical_advection=m['sc'].upwind_vertical_advection)
     kw = dict(vorticity=_ND(specs, p['vort'], '1/second'), divergence=_ND(specs, p['div'], '1/second'),
               temperature_variation=_ND(specs, p['temp'], 'kelvin'),
               log_surface_pressure=g.to_modal(jnp.log(jnp.asarray(_ND(specs, p['ps'], 'pascal')))),
@@ -370,13 +443,16 @@ def _pe_setup(sv, p, kind, **eqkw):
 def r_pe(ctx, a):
     m = M(); ti = m['ti']
     rng = np.random.Generator(np.random.PCG64(a['seed']))
-    kind = a['kind']; p = _pe_problem(rng, kind, a['K'])
+    kind = a['kind']; p = _pe_problem(rng, kind, a['K'], gridkw=a.get('grid'), structure=a.get('structure'))
+    eqkw = dict(a.get('eqkw') or {})
     labels = ['default'] + a['scales']
     R = {k: [] for k in ('explicit', 'implicit', 'inverse', 'steps')}
+    first = None
     for sv in labels:
-        specs, g, c, st, eq = _pe_setup(sv, p, kind)
+        specs, g, c, st, eq = _pe_setup(sv, p, kind, **eqkw)
         dt = float(_ND(specs, p['dt'], 'second'))
         ex = eq.explicit_terms(st); im = eq.implicit_terms(st)
+        if first is None: first = (eq, st, dyn.tree_to_np(ex))
         R['explicit'].append(_pe_tend_si(specs, ex, '', _gmax(ex)))
         R['implicit'].append(_pe_tend_si(specs, im, '', _gmax(im)))
         inv = Out(); g_st = _gmax(st)
@@ -396,6 +472,12 @@ def r_pe(ctx, a):
                 steps.merge(_pe_state_si(specs, g, s, f'{integ} step {n + 1}: ', (n + 1) * _gmax(s, st)))
         R['steps'].append(steps)
     ctx.count('class:' + kind)
+    for k_ in ('grid', 'eqkw', 'structure'):
+        if a.get(k_): ctx.count(f'pe:{k_}={a[k_]}')
+    # purity: the first equation object, re-evaluated after all the other scales were used, gives bit-identical results
+    again = dyn.tree_to_np(first[0].explicit_terms(first[1]))
+    ctx.oracle('explicit_terms of an equation object is unchanged (bitwise) after other scales were used in the process',
+               all(np.array_equal(x, y) for x, y in zip(dyn.tree_leaves(again), dyn.tree_leaves(first[2]))), None)
     _cmp(ctx, f'primitive equations ({kind}): explicit_terms equal in SI under every scale', R['explicit'], labels)
     _cmp(ctx, f'primitive equations ({kind}): implicit_terms equal in SI under every scale', R['implicit'], labels)
     _cmp(ctx, f'primitive equations ({kind}): implicit_inverse equal in SI under every scale', R['inverse'], labels)
@@ -412,19 +494,36 @@ def r_held_suarez(ctx, a):
     K = 4
     p = _pe_problem(rng, 'dry', K)
     p['b'] = np.array([0.0, 0.3, 0.6, 0.85, 1.0])
-    hs_kw = dict(p0=float(rng.integers(90000, 110000)) * u.pascal, sigma_b=0.7, kf=1 / (float(rng.integers(1, 4)) * u.day),
-                 ka=1 / (40 * u.day), ks=1 / (float(rng.integers(3, 6)) * u.day), minT=float(rng.integers(190, 230)) * u.degK,
-                 maxT=315 * u.degK, dTy=60 * u.degK, dThz=float(rng.integers(5, 15)) * u.degK)
-    labels = ['default'] + a['scales']
+    v = dict(p0=float(rng.integers(900, 1100)) * 100.0, sigma_b=float(rng.integers(5, 9)) / 10.0, kf=float(rng.integers(1, 4)), ka=float(rng.integers(30, 50)),
+             ks=float(rng.integers(3, 6)), minT=float(rng.integers(190, 230)), maxT=float(rng.integers(300, 330)), dTy=float(rng.integers(40, 70)),
+             dThz=float(rng.integers(5, 15)))
+    # the same parameters written in base-like units and in other units (hPa, 1/hour, degC, millikelvin)
+    hs_kws = [dict(p0=v['p0'] * u.pascal, sigma_b=v['sigma_b'], kf=1 / (v['kf'] * u.day), ka=1 / (v['ka'] * u.day), ks=1 / (v['ks'] * u.day),
+                   minT=v['minT'] * u.degK, maxT=v['maxT'] * u.degK, dTy=v['dTy'] * u.degK, dThz=v['dThz'] * u.degK),
+              dict(p0=(v['p0'] / 100.0) * u.hPa, sigma_b=v['sigma_b'], kf=1 / (24 * v['kf'] * u.hour), ka=1 / (86400.0 * v['ka'] * u.s), ks=1 / (1440 * v['ks'] * u.minute),
+                   minT=u.Quantity(v['minT'] - 273.15, u.degC), maxT=u.Quantity(v['maxT'] - 273.15, u.degC), dTy=1000 * v['dTy'] * u.millikelvin,
+                   dThz=v['dThz'] * u.degK)]
+    labels = ['default'] + a['scales'] + ['default']
     Rf, Rs = [], []
-    for sv in labels:
+    for n_, sv in enumerate(labels):
         specs, g, c, st, eq = _pe_setup(sv, p, 'dry')
         tref = _ND(specs, p['tref'], 'kelvin')
-        hs = held_suarez.HeldSuarezForcing(c, specs, tref, **hs_kw)
+        hs = held_suarez.HeldSuarezForcing(c, specs, tref, **hs_kws[n_ % 2])
         fo = hs.explicit_terms(st)
         out = _pe_tend_si(specs, fo, 'forcing ', _gmax(fo))
         out['equilibrium_temperature[K]'] = _D(specs, hs.equilibrium_temperature(np.exp(np.asarray(g.to_nodal(st.log_surface_pressure)))), 'kelvin')
         out['kt[1/s]'] = _D(specs, hs.kt(), '1/second'); out['kv[1/s]'] = _D(specs, hs.kv(), '1/second')
+        if n_ == 0:
+            # the same formulas recomputed here in SI with numpy (independent reference)
+            sig = np.asarray(c.vertical.centers)[:, None, None]; lat = np.arcsin(np.asarray(g.nodal_mesh[1]))[None]
+            cut = np.maximum(0, (sig - v['sigma_b']) / (1 - v['sigma_b']))
+            kt_ref = 1 / (86400 * v['ka']) + (1 / (86400 * v['ks']) - 1 / (86400 * v['ka'])) * cut * np.cos(lat) ** 4
+            ps_si = _D(specs, np.exp(np.asarray(g.to_nodal(st.log_surface_pressure))), 'pascal')      # the pressure field the forcing was given
+            pp = sig * ps_si / v['p0']
+            kap = float(p['consts']['kappa_si'].magnitude)
+            teq_ref = np.maximum(v['minT'], pp ** kap * (v['maxT'] - v['dTy'] * np.sin(lat) ** 2 - v['dThz'] * np.log(pp) * np.cos(lat) ** 2))
+            ctx.oracle_close('Held-Suarez kt = the published formula evaluated in SI', out['kt[1/s]'], np.broadcast_to(kt_ref, out['kt[1/s]'].shape), tol_rel=1e-9)
+            ctx.oracle_close('Held-Suarez equilibrium temperature = the published formula evaluated in SI', out['equilibrium_temperature[K]'], teq_ref, tol_rel=1e-9)
         Rf.append(out)
         dt = float(_ND(specs, p['dt'], 'second'))
         comp = ti.compose_equations([eq, hs])
@@ -464,7 +563,7 @@ def r_shallow_water(ctx, a):
         _put(out, specs, pre + 'potential[m^2/s^2]', t.potential, 'meter**2/second**2', gm)
         return out
     for sv in labels:
-        specs = sw.ShallowWaterSpecs.from_si(scale=_scale(sv), **consts)
+        specs = _register(sw.ShallowWaterSpecs.from_si(scale=_scale(sv), **consts), sv)
         g = dyn.grid(radius=specs.radius); c = dyn.layer_coords(g, K)
         st = _to_jnp(sw.State(vorticity=_ND(specs, p['vort'], '1/second'), divergence=_ND(specs, p['div'], '1/second'),
                               potential=_ND(specs, p['pot'], 'meter**2/second**2')))
@@ -500,19 +599,20 @@ def r_filters(ctx, a):
     rng = np.random.Generator(np.random.PCG64(a['seed']))
     g0 = dyn.grid()
     x = {'u': dyn.modal_field(rng, g0, (2,), 3, False, 1.0), 'v': dyn.modal_field(rng, g0, (1,), 3, False, 1.0)}
-    dt_si = float(rng.integers(200, 2000)); tau_si = float(rng.integers(2, 30)) * dt_si
+    dt_si = float(rng.integers(200, 2000)); tau_si = float(a.get('tau_over_dt') or rng.integers(2, 30)) * dt_si
+    order_e = int(a.get('order', 2)); cutoff = float(a.get('cutoff', 0.1))
     nu_dt = float(rng.integers(1, 50)) * 1e9         # nu*dt in m^2 (order 1) / m^4 (order 2)
     labels = ['default'] + a['scales']; R = []
     consts = _si_constants(rng)
     for sv in labels:
-        specs = pe.PrimitiveEquationsSpecs.from_si(scale=_scale(sv), **consts)
+        specs = _register(pe.PrimitiveEquationsSpecs.from_si(scale=_scale(sv), **consts), sv)
         g = dyn.grid(radius=specs.radius)
         dt = float(_ND(specs, dt_si, 'second')); tau = float(_ND(specs, tau_si, 'second'))
         xs = _to_jnp(x); out = {}
         def put(nm, y):
             for k, v in y.items(): out[f'{nm}[{k}]'] = np.asarray(v, dtype=np.float64)
-        put('exponential_step_filter', ti.exponential_step_filter(g, dt, tau=tau, order=2, cutoff=0.1)(xs, xs))
-        put('exponential_leapfrog_step_filter', ti.exponential_leapfrog_step_filter(g, dt, tau=tau, order=2, cutoff=0.1)((xs, xs), (xs, xs))[1])
+        put('exponential_step_filter', ti.exponential_step_filter(g, dt, tau=tau, order=order_e, cutoff=cutoff)(xs, xs))
+        put('exponential_leapfrog_step_filter', ti.exponential_leapfrog_step_filter(g, dt, tau=tau, order=order_e, cutoff=cutoff)((xs, xs), (xs, xs))[1])
         for order in (1, 2):
             put(f'horizontal_diffusion_step_filter order={order}', ti.horizontal_diffusion_step_filter(g, dt, tau=tau, order=order)(xs, xs))
             sc = float(_ND(specs, nu_dt * (1e6 if order == 2 else 1.0), u.m ** (2 * order)))
@@ -520,6 +620,16 @@ def r_filters(ctx, a):
         out['laplacian_eigenvalues[1/m^2]'] = _D(specs, g.laplacian_eigenvalues, u.m ** -2)
         R.append(out)
     _cmp(ctx, 'step filters with SI time scales act identically under every scale', R, labels)
+    # independent reference: the documented damping factors evaluated in SI with numpy
+    ll = np.arange(g0.total_wavenumbers, dtype=np.float64); kk = ll / ll.max()
+    fac_e = np.exp((kk > cutoff) * (-(dt_si / tau_si) * ((kk - cutoff) / (1 - cutoff)) ** (2 * order_e)))
+    ctx.oracle_close('exponential_step_filter = exp(-(dt/tau) ((k-c)/(1-c))^(2p)) evaluated in SI', R[0]['exponential_step_filter[u]'], x['u'] * fac_e,
+                     scale=1.0, tol_rel=1e-9)
+    lam_max = ll.max() * (ll.max() + 1)
+    fac_d = np.exp(-(dt_si / tau_si) * (ll * (ll + 1) / lam_max))
+    ctx.oracle_close('horizontal_diffusion_step_filter order 1 = exp(-(dt/tau) l(l+1)/lmax(lmax+1)) evaluated in SI',
+                     R[0]['horizontal_diffusion_step_filter order=1[u]'], x['u'] * fac_d, scale=1.0, tol_rel=1e-9)
+    ctx.count('filters:tau/dt=%g order=%d cutoff=%g' % (tau_si / dt_si, order_e, cutoff))
 
 
 # ---------------------------------------------------------------------------
@@ -560,15 +670,26 @@ def r_init_states(ctx, a):
     g0 = dyn.grid(); K = 3; b = util.uneven_boundaries(rng, K)
     consts = _si_constants(rng)
     height = 500.0 * np.asarray(g0.to_nodal(dyn.modal_field(rng, g0, (), 2, False, 1.0)))
-    kw_iso = dict(tref=float(rng.integers(260, 300)) * u.degK, p0=float(rng.integers(95000, 105000)) * u.pascal, p1=float(rng.integers(100, 3000)) * u.pascal)
-    kw_jw = dict(u0=float(rng.integers(20, 50)) * u.m / u.s, p0=1e5 * u.pascal, t0=float(rng.integers(270, 300)) * u.degK,
-                 delta_t=4.8e5 * u.degK, gamma=0.001 * float(rng.integers(3, 8)) * u.degK / u.m)
-    u_perturb = float(rng.integers(1, 6)) * u.m / u.s
-    labels = ['default'] + a['scales']; R = []
-    for sv in labels:
-        specs = pe.PrimitiveEquationsSpecs.from_si(scale=_scale(sv), **consts)
+    v = dict(tref=float(rng.integers(260, 300)), p0=float(rng.integers(950, 1050)) * 100.0, p1=float(rng.integers(1, 30)) * 100.0, u0=float(rng.integers(20, 50)),
+             t0=float(rng.integers(270, 300)), delta_t=float(rng.integers(40, 56)) * 1e4, gamma=float(rng.integers(3, 8)), up=float(rng.integers(1, 6)))
+    # every argument non-default; written once in base-like units and once in other units / as strings
+    kw_isos = [dict(tref=v['tref'] * u.degK, p0=v['p0'] * u.pascal, p1=v['p1'] * u.pascal, surface_height=height * u.m),
+               dict(tref='%r kelvin' % v['tref'], p0='%r hPa' % (v['p0'] / 100.0), p1=(v['p1'] / 100.0) * u.hPa, surface_height=(height / 1000.0) * u.km)]
+    jw_opts = dict(sigma_tropo=float(rng.integers(15, 30)) / 100.0, sigma0=float(rng.integers(20, 30)) / 100.0)
+    kw_jws = [dict(u0=v['u0'] * u.m / u.s, p0=1e5 * u.pascal, t0=v['t0'] * u.degK, delta_t=v['delta_t'] * u.degK, gamma=0.001 * v['gamma'] * u.degK / u.m, **jw_opts),
+              dict(u0=3.6 * v['u0'] * u.km / u.hour, p0=1000.0 * u.hPa, t0=u.Quantity(v['t0'] - 273.15, u.degC), delta_t=(v['delta_t'] / 1000.0) * u.kilokelvin,
+                   gamma=v['gamma'] * u.degK / u.km, **jw_opts)]
+    pert_opts = dict(lon_location=float(rng.integers(1, 12)) * np.pi / 6, lat_location=float(rng.integers(-3, 4)) * np.pi / 9,
+                     perturbation_radius=float(rng.integers(5, 30)) / 100.0)
+    u_perturbs = [v['up'] * u.m / u.s, 3.6 * v['up'] * u.km / u.hour]
+    gs_opts = dict(lon_location=pert_opts['lon_location'], lat_location=pert_opts['lat_location'], perturbation_radius=float(rng.integers(10, 40)) / 100.0,
+                   amplitude=float(rng.integers(1, 9)) / 4.0)
+    labels = ['default'] + a['scales'] + ['default']; R = []
+    for n_, sv in enumerate(labels):
+        kw_iso = kw_isos[n_ % 2]; kw_jw = kw_jws[n_ % 2]; u_perturb = u_perturbs[n_ % 2]
+        specs = _register(pe.PrimitiveEquationsSpecs.from_si(scale=_scale(sv), **consts), sv)
         g = dyn.grid(radius=specs.radius); c = dyn.coords(g, b); out = {}
-        fn, aux = pes.isothermal_rest_atmosphere(c, specs, surface_height=height * u.m, **kw_iso)
+        fn, aux = pes.isothermal_rest_atmosphere(c, specs, **kw_iso)
         out.update(_pe_state_si(specs, g, fn(jax.random.PRNGKey(3)), 'isothermal_rest_atmosphere '))
         out['isothermal orography[m]'] = _D(specs, aux[xarray_utils.OROGRAPHY], 'meter')
         out['isothermal ref_temperatures[K]'] = _D(specs, aux[xarray_utils.REF_TEMP_KEY], 'kelvin')
@@ -577,12 +698,19 @@ def r_init_states(ctx, a):
         out['jw orography[m]'] = _D(specs, aux[xarray_utils.OROGRAPHY], 'meter')
         out['jw geopotential[m^2/s^2]'] = _D(specs, aux[xarray_utils.GEOPOTENTIAL_KEY], 'meter**2/second**2')
         out['jw ref_temperatures[K]'] = _D(specs, aux[xarray_utils.REF_TEMP_KEY], 'kelvin')
-        pert = pes.baroclinic_perturbation_jw(c, specs, u_perturb=u_perturb)
+        pert = pes.baroclinic_perturbation_jw(c, specs, u_perturb=u_perturb, **pert_opts)
         out['baroclinic_perturbation vorticity[1/s]'] = _D(specs, pert.vorticity, '1/second')
         out['baroclinic_perturbation divergence[1/s]'] = _D(specs, pert.divergence, '1/second')
-        out['gaussian_scalar'] = np.asarray(pes.gaussian_scalar(c, specs), dtype=np.float64)
+        out['gaussian_scalar'] = np.asarray(pes.gaussian_scalar(c, specs, **gs_opts), dtype=np.float64)
         R.append(out)
     _cmp(ctx, 'initial-state generators produce the same SI state under every scale', R, labels)
+    # independent references (SI formulas evaluated here)
+    ctx.oracle_close('isothermal_rest_atmosphere reference temperature = tref', R[0]['isothermal ref_temperatures[K]'], np.full(K, v['tref']), tol_rel=1e-12)
+    ctx.oracle_close('isothermal_rest_atmosphere orography = the surface height given', R[0]['isothermal orography[m]'], height, scale=500.0, tol_rel=1e-12)
+    sig = np.asarray(dyn.coords(g0, b).vertical.centers); g_si = float(consts['gravity_acceleration_si'].to('m/s**2').magnitude)
+    R_si = float(consts['ideal_gas_constant_si'].to('J/kg/K').magnitude)
+    tr = v['t0'] * sig ** (R_si * 0.001 * v['gamma'] / g_si) + np.where(sig < jw_opts['sigma_tropo'], v['delta_t'] * np.abs(jw_opts['sigma_tropo'] - sig) ** 5, 0.0)
+    ctx.oracle_close('steady_state_jw reference temperatures = the Jablonowski-Williamson formula in SI', R[0]['jw ref_temperatures[K]'], tr, tol_rel=1e-9)
 
 
 
@@ -595,14 +723,15 @@ def r_radiation(ctx, a):
     import datetime
     rng = np.random.Generator(np.random.PCG64(a['seed']))
     g0 = dyn.grid(); b = [0.0, 0.5, 1.0]
-    ref = datetime.datetime(1990 + int(rng.integers(0, 30)), int(rng.integers(1, 13)), int(rng.integers(1, 28)), int(rng.integers(0, 24)))
-    t_si = [float(x) for x in rng.integers(0, 86400 * 200, size=3)]
+    ref = datetime.datetime(1990 + int(rng.integers(0, 30)), int(rng.integers(1, 13)), int(rng.integers(1, 28)), int(rng.integers(0, 24)), int(rng.integers(0, 60)))
+    t_si = [float(x) for x in rng.integers(0, 86400 * 200, size=3)] + [-float(rng.integers(1, 86400 * 30))]      # incl. a negative time
     when = ref + datetime.timedelta(days=float(rng.integers(1, 300)), hours=float(rng.integers(0, 24)))
     labels = ['default'] + a['scales']; R = []
     for sv in labels:
-        specs = pe.PrimitiveEquationsSpecs.from_si(scale=_scale(sv))
+        specs = _register(pe.PrimitiveEquationsSpecs.from_si(scale=_scale(sv)), sv)
         g = dyn.grid(radius=specs.radius); c = dyn.coords(g, b); out = {}
-        sr = radiation.SolarRadiation(c, specs, ref); srn = radiation.SolarRadiation.normalized(c, specs, ref)
+        rf = ref if (len(R) % 2 == 0) else np.datetime64(ref)         # both accepted forms of the reference date
+        sr = radiation.SolarRadiation(c, specs, rf); srn = radiation.SolarRadiation.normalized(c, specs, rf)
         for i, t in enumerate(t_si):
             tn = float(_ND(specs, t, 'second'))
             out[f'radiation_flux t{i}[W/m^2]'] = _D(specs, sr.radiation_flux(tn), 'watt/meter**2')
@@ -620,7 +749,7 @@ def r_radiation(ctx, a):
 def r_pe_extreme(ctx, a):
     m = M(); ti = m['ti']
     rng = np.random.Generator(np.random.PCG64(a['seed']))
-    kind = a['kind']; p = _pe_problem(rng, kind, a['K'], tref_range=a['tref_range'])
+    kind = a['kind']; p = _pe_problem(rng, kind, a['K'], tref_range=a['tref_range'], gridkw=a.get('grid'), structure=a.get('structure'))
     labels = ['default', [1.0, 1.0, 1.0, 1.0]] + a['scales']
     R = {k: [] for k in ('explicit', 'implicit', 'step')}
     for sv in labels:
@@ -638,20 +767,20 @@ def r_pe_extreme(ctx, a):
     _cmp(ctx, nm + ': a time step equal in SI under every scale', R['step'], labels)
 
 
-def _sw_problem(rng):
-    m = M(); u = m['units']; sc = m['scales']; g0 = dyn.grid(); K = 2
+def _sw_problem(rng, gridkw=None):
+    m = M(); u = m['units']; sc = m['scales']; gridkw = dict(gridkw or {}); g0 = dyn.grid(**gridkw); K = 2
     f = lambda: float(1.0 + 0.2 * (rng.random() - 0.5))
     consts = dict(densities=np.array([1000.0, 1000.0 + float(rng.integers(50, 400))]) * u.kg / u.m ** 3, radius_si=sc.RADIUS * f(),
                   angular_velocity_si=sc.ANGULAR_VELOCITY * f(), gravity_acceleration_si=sc.GRAVITY_ACCELERATION * f())
-    return dict(consts=consts, K=K, vort=dyn.modal_field(rng, g0, (K,), 2, True, 2e-5), div=dyn.modal_field(rng, g0, (K,), 2, True, 4e-6),
+    return dict(consts=consts, K=K, gridkw=gridkw, vort=dyn.modal_field(rng, g0, (K,), 2, True, 2e-5), div=dyn.modal_field(rng, g0, (K,), 2, True, 4e-6),
                 pot=dyn.modal_field(rng, g0, (K,), 2, False, 60.0), oro=dyn.modal_field(rng, g0, (), 2, False, 150.0),
                 ref=np.array([3.0e4, 2.0e4]) * f(), dt=float(rng.integers(300, 1200)))
 
 
 def _sw_setup(sv, p):
     m = M(); sw = m['sw']
-    specs = sw.ShallowWaterSpecs.from_si(scale=_scale(sv), **p['consts'])
-    g = dyn.grid(radius=specs.radius); c = dyn.layer_coords(g, p['K'])
+    specs = _register(sw.ShallowWaterSpecs.from_si(scale=_scale(sv), **p['consts']), sv)
+    g = dyn.grid(radius=specs.radius, **p.get('gridkw', {})); c = dyn.layer_coords(g, p['K'])
     st = _to_jnp(sw.State(vorticity=_ND(specs, p['vort'], '1/second'), divergence=_ND(specs, p['div'], '1/second'),
                           potential=_ND(specs, p['pot'], 'meter**2/second**2')))
     eq = sw.ShallowWaterEquations(c, specs, _ND(specs, p['oro'], 'meter**2/second**2'), _ND(specs, p['ref'], 'meter**2/second**2'))
@@ -670,7 +799,8 @@ def _sw_si(specs, t, pre, gm, tend=False):
 
 
 def r_sw_extreme(ctx, a):
-    rng = np.random.Generator(np.random.PCG64(a['seed'])); p = _sw_problem(rng)
+    rng = np.random.Generator(np.random.PCG64(a['seed'])); p = _sw_problem(rng, a.get('grid'))
+    m = M(); sw = m['sw']; alpha = float(a.get('alpha', 0.5))
     labels = ['default', [1.0, 1.0, 1.0, 1.0]] + a['scales']
     R = {k: [] for k in ('explicit', 'implicit', 'step')}
     for sv in labels:
@@ -679,7 +809,10 @@ def r_sw_extreme(ctx, a):
         ex = eq.explicit_terms(st); im = eq.implicit_terms(st)
         R['explicit'].append(_sw_si(specs, ex, '', _gmax(ex), True)); R['implicit'].append(_sw_si(specs, im, '', _gmax(im), True))
         s1 = dyn.integrator('crank_nicolson_rk2', eq, dt)(st)
-        R['step'].append(_sw_si(specs, s1, 'step: ', _gmax(s1, st)))
+        o = _sw_si(specs, s1, 'step: ', _gmax(s1, st))
+        lf = sw.shallow_water_leapfrog_step(c, dt, specs, eq.reference_potential, eq.orography, alpha=alpha)((st, s1))
+        o.merge(_sw_si(specs, lf[1], f'leapfrog(alpha={alpha}) step: ', 2 * _gmax(lf[1], st)))
+        R['step'].append(o)
     for k in R:
         _cmp(ctx, f'shallow water, one base unit extreme: {k} equal in SI under every scale', R[k], labels)
 
@@ -695,7 +828,8 @@ def r_dfi(ctx, a):
     labels = ['default'] + a['scales']
     p = _sw_problem(rng) if a['eq'] == 'shallow_water' else _pe_problem(rng, 'dry', 3)
     u = m['units']
-    for Wv, Wu, Sv, Su in a['pairs']:
+    for ip, (Wv, Wu, Sv, Su) in enumerate(a['pairs']):
+        do_run = ip in a.get('run', list(range(len(a['pairs']))))
         Wq = Wv * u(Wu); Sq = Sv * u(Su); S_si = float(Sq.to('second').magnitude); W_si = float(Wq.to('second').magnitude)
         Rn, Rs = [], []
         for sv in labels:
@@ -709,6 +843,7 @@ def r_dfi(ctx, a):
             Rn.append({'number of steps in each half of the window (window/step given in %s/%s)' % (Wu, Su): np.asarray([float(len(w))]),
                        'number of steps in each half of the window (window/step given in seconds)': np.asarray([float(len(w2))]),
                        'lanczos weights (padded)': np.pad(w, (0, 64 - len(w))), 'lanczos weights (seconds, padded)': np.pad(w2, (0, 64 - len(w2)))})
+            if not do_run: continue
             filt = _filters_si(['exponential'], g, specs, S_si)
             with jax.disable_jit():        # the scans are executed step by step: no compilation per scale
                 out = ti.digital_filter_initialization(eq, solver, filt, W, W, S)(st)
@@ -716,7 +851,8 @@ def r_dfi(ctx, a):
             Rs.append(_sw_si(specs, out, '', gm) if a['eq'] == 'shallow_water' else _pe_state_si(specs, g, out, '', gm))
         ctx.count('dfi:%s window=%g %s step=%g %s' % (a['eq'], Wv, Wu, Sv, Su))
         _cmp(ctx, f'digital filter initialization ({a["eq"]}): step count and weights do not depend on the time unit', Rn, labels)
-        _cmp(ctx, f'digital filter initialization ({a["eq"]}): filtered multi-step state equal in SI under every scale', Rs, labels)
+        if do_run:
+            _cmp(ctx, f'digital filter initialization ({a["eq"]}): filtered multi-step state equal in SI under every scale', Rs, labels)
 
 
 # ---------------------------------------------------------------------------
@@ -737,7 +873,7 @@ def r_winds(ctx, a):
     labels = []; R = []
     grids = {}
     for n, sv in enumerate(order):
-        specs = pe.PrimitiveEquationsSpecs.from_si(scale=_scale(sv), **consts)
+        specs = _register(pe.PrimitiveEquationsSpecs.from_si(scale=_scale(sv), **consts), sv)
         g = dyn.grid(radius=specs.radius); grids[json_key(sv)] = g
         und = jnp.asarray(_ND(specs, usi, 'meter/second')); vnd = jnp.asarray(_ND(specs, vsi, 'meter/second'))
         vor, div = sh.uv_nodal_to_vor_div_modal(g, und, vnd)
@@ -897,6 +1033,25 @@ def r_units(ctx, a):
                              _pint_dim(q) == tuple(d), {'pint': _pint_dim(q), 'model': d})
         back = [float(scale.dimensionalize(x, q.units).magnitude) for x in nd]
         ctx.oracle_close('dimensionalize(nondimensionalize(x)) = x', back, vals, tol_rel=1e-12)
+    # forms of the magnitude: python int / float, numpy ints, 0-d, 1-element, rank-3, read-only (float32 input stays float32 in the library and is therefore not exact: not used) / strided views
+    base = np.arange(1, 25, dtype=np.float64).reshape(2, 3, 4) / 4.0
+    ro = base.copy(); ro.setflags(write=False)
+    forms = {'python int': 3, 'python float': 3.0, 'numpy int64 array': np.arange(1, 5), 'numpy int32 scalar': np.int32(7), '0-d array': np.asarray(2.5),
+             '1-element array': np.asarray([2.5]), 'rank-3 array': base, 'read-only array': ro,
+             'strided view': base[:, ::2, ::-1], 'bool array': np.array([True, False])}
+    for unit in ('kilometer', 'hour', 'hectopascal', 'joule/kilogram/kelvin'):
+        q = u(unit); conv = float(q.to_base_units().magnitude)
+        f0 = float(ctx.model.call(0, list(DIMS[unit]), [sv, [1.0]])[0])
+        for nm, val in forms.items():
+            got = np.asarray(scale.nondimensionalize(val * q), dtype=np.float64)
+            want = np.asarray(val, dtype=np.float64) * conv / f0
+            ctx.oracle_close(f'Scale.nondimensionalize of a {nm} = value * unit / factor', got, want, tol_rel=1e-12)
+            back = np.asarray(scale.dimensionalize(np.asarray(val, dtype=np.float64), q.units).magnitude, dtype=np.float64)
+            ctx.oracle_close(f'Scale.dimensionalize of a {nm} = value * factor / unit', back, np.asarray(val, dtype=np.float64) * f0 / conv, tol_rel=1e-12)
+        ctx.oracle('nondimensionalize does not modify its argument', bool(np.array_equal(base, np.arange(1, 25, dtype=np.float64).reshape(2, 3, 4) / 4.0)), None)
+    # offset units are converted to kelvin (autoconvert_offset_to_baseunit)
+    fK = float(ctx.model.call(0, list(DIMS['kelvin']), [sv, [1.0]])[0])
+    ctx.oracle_close('nondimensionalize(15 degC) = 288.15 K / temperature scale', float(scale.nondimensionalize(u.Quantity(15.0, u.degC))), 288.15 / fK, tol_rel=1e-12)
     # the constants carried by the specs objects
     consts = _si_constants(rng)
     specs = pe.PrimitiveEquationsSpecs.from_si(scale=scale, **consts)
